@@ -71,3 +71,7 @@ func EWriteBits(vals []uint32, nbits []int) []byte { return lossless.VerifWriteB
 func EReadBits(data []byte, nbits []int) ([]uint32, []bool) {
 	return lossless.VerifReadBits(data, nbits)
 }
+
+func ERefsWithLocalCache(argb []uint32, cacheBits int, refs []ERef) []ERef {
+	return lossless.VerifRefsWithLocalCache(argb, cacheBits, refs)
+}
